@@ -236,6 +236,29 @@ pub fn swap_history(out: &mut crate::Out, tag: &str, seed: u64, net: NetID, bloc
             d.apply(&batch, 0, json!({"why": "two equal deposits (4,4) into a new pool"}));
         }
         d.seal_next(Some(true));
+        // deposits whose pro-rata shares are not whole numbers, into the same (fully held) pool: (9,4) and (1,1), then (7,3), (2,5), (1,1)
+        for set in [vec![(9u128, 4u128), (1, 1)], vec![(7, 3), (2, 5), (1, 1)]] {
+            let mut batch = vec![];
+            let mut used: Vec<CoinID> = vec![];
+            for (x, y) in set {
+                let tokc: Vec<_> = d.spendable().into_iter().filter(|(c, z)| z.coin_data.denom == tok && z.coin_data.value.0 >= 20 && !used.contains(c)).collect();
+                let melc = mel_fee_coin(&d, &used);
+                if let (Some(tc), Some(mc)) = (tokc.first().cloned(), melc) {
+                    let a = d.wal.address(CovKind::New(3));
+                    let (l, r, lv, rv) = if key.left() == Denom::Mel { (mc.clone(), tc.clone(), x, y) } else { (tc.clone(), mc.clone(), y, x) };
+                    let fixed = vec![mk_coin(a, lv, key.left(), &[]), mk_coin(a, rv, key.right(), &[])];
+                    if let Some(t) = d.build(TxKind::LiqDeposit, &[l, r], fixed, 2, key.to_bytes().to_vec(), 0) {
+                        used.extend(t.inputs.iter().copied());
+                        batch.push(t);
+                    }
+                }
+            }
+            if batch.len() >= 2 {
+                d.apply(&batch, 0, json!({"why": "deposits with fractional shares into a fully held pool"}));
+            }
+            d.seal_next(None);
+        }
+        d.seal_next(Some(true));
         // both withdraw everything in one block
         let mut batch = vec![];
         let mut used: Vec<CoinID> = vec![];
